@@ -20,7 +20,7 @@ def run(ctx, only=None):
     for r in recs:
         if 'histories' in r:
             ctx.evaluations += r['histories']
-            ctx.nontrivial.update(range(max(0, r['histories'] - 40)))
+            ctx.nontrivial_counted += r['histories_with_2_or_more_operations']
             ctx.cov.update(r)
             ctx.sample(r)
     for v in [r for r in recs if r.get('violation')]:
